@@ -23,6 +23,9 @@ func (g *fastGenerator) genUnmarshalMethod() {
 	g.P("Flags:               input.Flags,")
 	g.P("}, nil")
 	g.P("}")
+	g.P("if input.Depth < 0 {")
+	g.P(`return `, protoifacePkg.Ident("UnmarshalOutput"), "{NoUnkeyedLiterals: input.NoUnkeyedLiterals, Flags: input.Flags}, ", runtimePackage.Ident("ErrRecursionDepth"))
+	g.P("}")
 	g.P("options := ", runtimePackage.Ident("UnmarshalInputToOptions"), "(input)")
 	g.P("_ = options")
 	g.P("dAtA := input.Buf")
